@@ -281,6 +281,33 @@ def path_ends(path, *sufs):
 
 # ------------------------------------------------------------ predicates
 
+_MIRROR_OP = {ast.Eq: ast.Eq, ast.NotEq: ast.NotEq, ast.Is: ast.Is,
+              ast.IsNot: ast.IsNot, ast.Lt: ast.Gt, ast.Gt: ast.Lt,
+              ast.LtE: ast.GtE, ast.GtE: ast.LtE}
+
+
+def cmp_sides(e):
+    """Both readings of a single-operator comparison: [(left, op class,
+    right), (right, mirrored op class, left)]; [] if `e` is not one.  Rules
+    match on these so that `a < b` and `b > a` are the same to them."""
+    if isinstance(e, ast.Compare) and len(e.ops) == 1:
+        op = type(e.ops[0])
+        out = [(e.left, op, e.comparators[0])]
+        if op in _MIRROR_OP:
+            out.append((e.comparators[0], _MIRROR_OP[op], e.left))
+        return out
+    return []
+
+
+def if_branches(ifnode):
+    """[(atoms implied on entering the block, block)] for the two blocks of
+    an `if`: rules that look for "the block executed when <atom> is
+    true/false" use this, so that `if c: A else: B` and `if not c: B else: A`
+    are the same to them."""
+    return [(implied_atoms(ifnode.test, 'T'), ifnode.body),
+            (implied_atoms(ifnode.test, 'F'), ifnode.orelse)]
+
+
 def strip_not(test):
     """-> (inner expr, polarity) with leading `not`s removed."""
     pol = True
